@@ -27,7 +27,8 @@ REQUIRED_MONITORS = ["equals_documented_combination", "results_reproduce_intensi
 REQUIRED_BUCKETS = {"quick": ["mode:0", "mode:>0", "beta:on", "beta:off", "dim:1d", "dim:2d", "P:owns_volfraction",
                               "P:hollow", "P:python", "P:no_Fq", "pd:P", "pd:radius_effective", "mesh>100",
                               "bigmesh_mode>0_no_F1_branch", "S:hardsphere", "S:hayter_msa", "S:squarewell", "S:stickyhardsphere", "lane:asan",
-                              "cutoff>0", "retained_weights_do_not_sum_to_one"]}
+                              "cutoff>0", "retained_weights_do_not_sum_to_one",
+                              "sequence:mode-changed-on-same-kernel", "contrast-matched:beta-on"]}
 REQUIRED_BUCKETS["thorough"] = REQUIRED_BUCKETS["quick"]
 SF = ["hardsphere", "hayter_msa", "squarewell", "stickyhardsphere"]
 _cache = {}
@@ -174,6 +175,14 @@ def run_case(case, rec):
             rec.bucket("pd:P")
             if meshn > 100:
                 rec.bucket("mesh>100")
+        if beta == 1 and (k + vi) % 4 == 0 and not sas.is_python(pi):
+            # contrast-matched particle: <F> = <F^2> = 0, the documented combination is exactly the background
+            slds_p = [p_.name for p_ in pi.parameters.call_parameters if p_.type == "sld"]
+            solv = [n_ for n_ in slds_p if "solvent" in n_]
+            if slds_p and solv:
+                for n_ in slds_p:
+                    pp[n_] = pp[solv[0]]
+                rec.bucket("contrast-matched:beta-on")
         sp = dict(spars)
         vf = pp["volfraction"] if p_owns_vf else sp["volfraction"]
         re_user = float(rng.uniform(20, 200))
@@ -247,8 +256,11 @@ def run_case(case, rec):
         PQ = np.asarray(results["P(Q)"][1], float)
         SQ = np.asarray(results["S(Q)"][1], float)
         Seff = np.asarray(results["S_eff(Q)"][1], float) if beta else SQ
-        rec.check("results_reproduce_intensity", core.close(PQ*Seff + bg, I, 1e-12, 1e-13*sc),
-                  dict(ctx, P_times_S_plus_bg=PQ*Seff + bg, returned=I))
+        # where P(Q) is exactly zero beta = <F>^2/<F^2> is 0/0 (undefined, reported as NaN); P*S_eff is zero there
+        with np.errstate(all="ignore"):
+            recon = np.where(PQ == 0, bg, PQ*Seff + bg)
+        rec.check("results_reproduce_intensity", core.close(recon, I, 1e-12, 1e-13*sc),
+                  dict(ctx, P_times_S_plus_bg=recon, returned=I))
         rec.check("reported_volume_is_P_shell_volume", abs(results["volume"] - Vs) <= 1e-12*abs(Vs)
                   and abs(results["volume_ratio"] - ratio) <= 1e-12*abs(ratio),
                   dict(ctx, reported=[results["volume"], results["volume_ratio"]], P=[float(Vs), float(ratio)]))
@@ -282,6 +294,30 @@ def run_case(case, rec):
                       nontrivial=bool(np.any(np.abs(Sq - 1) > 1e-6)))
         if vi == 0 and k < 30:
             rec.observe(P=P, S=S, mode=mode, beta=beta, I=I, expected=exp, R_eff=float(Reff), V_shell=float(Vs))
+        # --- the same kernel object again with only the effective-radius mode (and then only beta) changed:
+        # nothing computed for the previous request may be reused for a different one
+        if "radius_effective_mode" in extra and len(modes) >= 1 and not (beta == 1 and dim == "2d"):
+            for mode2 in sorted({(mode % len(modes)) + 1, 0} - {mode})[:2]:
+                cp2 = dict(cp, radius_effective_mode=mode2)
+                I2 = np.asarray(direct_model.call_kernel(kernel, dict(cp2), cutoff=cut), float)
+                rep2 = float(kernel.results()["radius_effective"])
+                F1b, F2b, Reffb, Vsb, ratiob = direct_model.call_Fq(
+                    kP, dict(pp, radius_effective_mode=mode2, scale=1.0, background=0.0), cutoff=cut)
+                sob = dict(sp, scale=1.0, background=0.0, volfraction=vf*ratiob)
+                if mode2 > 0:
+                    sob["radius_effective"] = float(Reffb)
+                    for suf in ("_pd", "_pd_n", "_pd_nsigma", "_pd_type"):
+                        sob.pop("radius_effective" + suf, None)
+                Sqb = np.asarray(direct_model.call_kernel(kS, sob, cutoff=cut), float)
+                F2b = np.asarray(F2b, float)
+                PSb = F2b + np.asarray(F1b, float)**2*(Sqb - 1) if beta else F2b*Sqb
+                expb = scale/Vsb*(1.0 if p_owns_vf else vf)*PSb + bg
+                okb = core.close(I2, expb, 1e-10, 1e-12*float(np.max(np.abs(expb - bg))))
+                rec.check("equals_documented_combination", okb,
+                          None if okb else dict(ctx, note="same kernel, only radius_effective_mode changed %d -> %d" % (mode, mode2),
+                                                observed=I2, expected=expb, reported_radius_effective=rep2,
+                                                R_eff_for_new_mode=float(Reffb)))
+                rec.bucket("sequence:mode-changed-on-same-kernel")
         for kk in (kernel, kP, kS):
             kk.release()
 
